@@ -378,16 +378,16 @@ _DEF_PAIR = {}      # (definition atom id, definition atom id) -> verdict on the
 
 
 def _affine_in(r, k):
-    """the atom k occurs in r only as a factor of degree one of numerator terms (not in the denominator, not inside an exponent)"""
-    if k in r.den.atoms():
-        return False
-    for (mono, ex), c in r.num.t.items():
-        for ak, e in mono:
-            if ak == k and e != 1:
-                return False
-        for emono, ec in ex:
-            if any(ak == k for ak, e in emono):
-                return False
+    """the atom k occurs in r only with degree one in the numerator and in the denominator (a Moebius function (alpha D + beta) / (gamma D +
+    delta) of it: injective where it is not constant) and never inside an exponent"""
+    for poly in (r.num, r.den):
+        for (mono, ex), c in poly.t.items():
+            for ak, e in mono:
+                if ak == k and e != 1:
+                    return False
+            for emono, ec in ex:
+                if any(ak == k for ak, e in emono):
+                    return False
     return True
 
 
@@ -494,7 +494,56 @@ def _special_point(ca):
     return sid, (target - q) / p, at_special
 
 
+NEW_SYMBOLS = ('mod', 'floordiv', 'floor', 'ceil', 'int', 'nearest', 'rnd', 'rndsig', 'max', 'min', 'uninit', 'fmod', 'isinstance', 'type')
+
+
+def _deep_one_sided(a, b):
+    """a generator of a genuinely NEW kind that occurs - at any depth, inside definitions too - on one side only: a rounding, a truncation, a
+    modulo, a clamp, an uninitialised cell, a type test, an opaque call, or a conditional on an ORDERING test with different arms.  These
+    are function symbols no rewrite rule of the normal form relates to the arithmetic / exponential / root / inverse-trigonometric atoms
+    (for those - sqrt(1 + tan^2) against 1/cos - nothing is concluded here).  Used when the definitions are too large to unfold: a form
+    that contains such a generator and one that does not are different functions (the generator would have to cancel out of a
+    polynomial in which it occurs)."""
+    da, db = a.atoms(deep=True), b.atoms(deep=True)
+    for only, other in ((da - db, db), (db - da, da)):
+        other_names = set()
+        for k in other:
+            at = TABLE.atoms[k]
+            if at.kind == 'fn':
+                other_names.add(at.name)
+        for k in only:
+            at = TABLE.atoms[k]
+            if at.kind != 'fn':
+                continue
+            new_kind = at.name in NEW_SYMBOLS or at.name.startswith('call:')
+            if at.name == 'ite' and len(at.args) == 3 and isinstance(at.args[0], Rat) and isinstance(at.args[1], Rat) and isinstance(at.args[2], Rat):
+                c0 = at.args[0]
+                ca = None
+                if len(c0.num.t) == 1 and c0.den.is_const():
+                    (mm, cc), = c0.num.t.items()
+                    if len(mm[0]) == 1 and not mm[1] and mm[0][0][1] == 1:
+                        ca = TABLE.atoms[mm[0][0][0]]
+                if ca is not None and ca.kind == 'fn' and ca.name in ('lt', 'le', 'gt', 'ge') and not at.args[1].equals(at.args[2]):
+                    new_kind = True
+            # the same function symbol on the other side (another mod, another call of the same function) may be the same value written
+            # differently: only a symbol the other side does not have at all is conclusive
+            if new_kind and at.name not in other_names:
+                return True
+    return False
+
+
 def decide_equal(a, b, budget=None, _why=None):
+    r = _decide_equal(a, b, budget, _why)
+    if r == 'unknown' and _DECIDE_DEPTH[0] == 0:
+        try:
+            if _deep_one_sided(a, b):
+                return 'different'
+        except RecursionError:
+            pass
+    return r
+
+
+def _decide_equal(a, b, budget=None, _why=None):
     """'equal' | 'different' | 'unknown'.
     1. folded comparison (definition atoms are names);
     2. if the two forms differ only by a one-for-one exchange of generators of the same function symbol
@@ -524,6 +573,7 @@ def decide_equal(a, b, budget=None, _why=None):
             matched = 0
             n_diff = 0
             n_unknown = 0
+            n_clean = 0
             has_def = False
             for perm in itertools.permutations(only_b):
                 ok = True
@@ -567,10 +617,30 @@ def decide_equal(a, b, budget=None, _why=None):
                     return 'equal'
                 if any(v == 'different' for v in verdicts):
                     n_diff += 1
+                    # a definitely different pair of independent generators decides the pairing even next to undecided definition pairs -
+                    # provided none of the exchanged definitions contains one of the two generators (then R(X, D1) = R(Y, D2) with X, Y
+                    # independent and D1, D2 free of them would make R independent of a generator it structurally depends on)
+                    if has_def:
+                        defs_here = [TABLE.atoms[z] for z in list(only_a) + list(perm) if TABLE.atoms[z].kind == 'fn' and TABLE.atoms[z].name == 'def']
+                        inside = set()
+                        for dz in defs_here:
+                            if dz.args and isinstance(dz.args[0], Rat):
+                                inside |= set(dz.args[0].atoms(deep=True))
+                        clean = False
+                        for (x, y), v in zip(zip(only_a, perm), verdicts):
+                            ax_ = TABLE.atoms[x]
+                            if v == 'different' and not (ax_.kind == 'fn' and ax_.name == 'def') and x not in inside and y not in inside:
+                                clean = True
+                        if clean:
+                            n_clean += 1
                 else:
                     n_unknown += 1
                 if matched >= 6:
                     break
+            if matched and has_def and n_clean == matched:
+                if _why is not None and not _why:
+                    _why.append((a, b))
+                return 'different'
             if matched and not has_def:
                 if n_diff == matched:
                     if _why is not None and not _why:
